@@ -676,8 +676,13 @@ pub fn block_on<T: 'static>(future: impl Future<Output = T>) -> T {
                 break result.unwrap();
             }
             CallbackCode::Yield => {
+                // The waitable set is created lazily when the first waitable
+                // is registered; a future that only yields has none to poll.
                 let set = state.shared.waitable_set.try_lock().unwrap();
-                event = set.as_ref().unwrap().poll()
+                event = match set.as_ref() {
+                    Some(set) => set.poll(),
+                    None => (EVENT_NONE, 0, 0),
+                }
             }
             CallbackCode::Wait(_) => {
                 let set = state.shared.waitable_set.try_lock().unwrap();
